@@ -269,11 +269,17 @@ func (e *explainer) solveBodyRec(premises []ast.Term, uf unionfind.UnionFind, de
 	case ast.Atom:
 		return e.solveAtomPremise(p, rest, uf, depth, need, accAtoms, accProofs, partial)
 	case ast.Eq:
-		ok, err := evalEq(p.Left, p.Right, uf, true)
-		if err != nil || !ok {
+		// Like the engine: evaluate function expressions, then unify, so that an
+		// equality may give a value to a variable (Y = fn:plus(X, 1), X = Y).
+		left, right, err := functional.EvalBaseTermPair(p.Left, p.Right, uf)
+		if err != nil {
 			return nil
 		}
-		return e.solveBodyRec(rest, uf, depth, need, accAtoms, accProofs, partial)
+		extended, err := unionfind.UnifyTermsExtend([]ast.BaseTerm{left}, []ast.BaseTerm{right}, uf)
+		if err != nil {
+			return nil
+		}
+		return e.solveBodyRec(rest, extended, depth, need, accAtoms, accProofs, partial)
 	case ast.Ineq:
 		ok, err := evalEq(p.Left, p.Right, uf, false)
 		if err != nil || !ok {
